@@ -16,7 +16,7 @@ CHECKS = {
               "transparent, bounded, keeps exactly the cap most recently used keys in LRU order and consults the wrapped function only at "
               "misses. The tie is checked two ways: re-translation + bridge lemma gen = spec, and differential runs of the extracted model "
               "against the real lru_cache on all histories over 4 keys up to length 6 (quick) / 8 (thorough) for capacities 1..3 plus random long ones."),
-        ref="DESIGN.md section 6 (C20)",
+        ref="DESIGN.md section 3 (C20)",
         note=TB_COMMON + "Hypotheses of the theorem: hash_func total and not conflating calls with different results, max_length >= 1, wrapped function returns. Not modelled: mutable_pseudo_hash, cache state after an exception, threads.",
         technique="Coq proof by induction over call histories (refinement to an abstract LRU) on a model translated from source each run; bridge lemma + extracted-model differential test as the tie",
     ),
@@ -27,7 +27,7 @@ CHECKS = {
               "and transformer - and that this functional walk coincides with the fuel-free relational reference semantics. Tie: re-translation + "
               "bridge lemmas, and differential runs of the generated engine (vm_compute) against real visions on hundreds of random user-defined type "
               "systems (class-based and create_type, per-class dispatch) over all inputs of their universes."),
-        ref="DESIGN.md section 6 (C12)",
+        ref="DESIGN.md section 3 (C12)",
         note=TB_COMMON + "Hand models validated by the correspondence: networkx DiGraph subset (NxModel.v), attr.evolve defaults of VisionsBaseTypeMeta.relations and multimethod dispatch (RunnerEngine.v). set iteration order is read from the interpreter. Fuel bounds recursion in the model.",
         technique="Coq proof (bridge: generated engine = reference walk; walk <-> relational semantics) on a model translated from source each run; random-type-system differential test as tie",
     ),
@@ -52,7 +52,7 @@ CHECKS = {
               "the data, path and state components are label-for-label and in column order the results of an independent fresh traversal of each column; the "
               "functional wrappers equal the methods. pd.DataFrame(dict) is an uninterpreted re-assembly function; that it keeps equally-indexed columns is checked "
               "on the implementation by an oracle comparing frame results with per-column results (types, casts incl. dtype and index, sub-frames, comparison and report functions)."),
-        ref="DESIGN.md section 6 (C08)",
+        ref="DESIGN.md section 3 (C08)",
         note=TB_COMMON + "pd.DataFrame(dict of Series), df.columns and df[col] are uninterpreted functions of the model (frame_of_dict, frame_columns, frame_getitem). Column labels are compared with a decidable equality assumed correct.",
         technique="Coq proof (bridge + list induction) that the generated DataFrame traversal is a map of independent per-column walks; DataFrame-vs-columns oracle on the implementation",
     ),
@@ -61,7 +61,7 @@ CHECKS = {
               "the returned path starts at the entry type, every relation on it accepted the full data as it was at that point and the returned data is the full data after "
               "exactly those transformers; hence it belongs to the last type when transformers land in their targets; below 1000 rows or with a sample larger than the data it "
               "equals full traversal. (The unchanged tree violated this - off-by-one after break, shared default state - repaired by two fix: commits.)"),
-        ref="DESIGN.md section 6 (C18)",
+        ref="DESIGN.md section 3 (C18)",
         note=TB_COMMON + "series.shape[0] and series.sample are uninterpreted; membership of the result in the last type additionally needs C03 (transformers land in target).",
         technique="Coq proof (bridge to a replay spec + induction over the re-validated path) for an arbitrary sampler; oracle on >= 1000-row contaminated series for counter-example search",
     ),
@@ -99,7 +99,7 @@ CHECKS = {
               "styled edge set export identically (sort is permutation-invariant for injective keys, proved). pydot/graphviz is an uninterpreted "
               "function of that ordered input. On the implementation: exports are parsed back and compared with the typeset's graphs, bytes compared across all supply orders for small "
               "typesets and sampled orders for larger ones; the DOT text handed to graphviz is compared, in order, with the generated model's."),
-        ref="DESIGN.md section 6 (C19)",
+        ref="DESIGN.md section 3 (C19)",
         note=TB_COMMON + "Byte-identity across supply orders is a theorem without premises on the graphs for typesets built by the generated constructor (C19_constructed_typesets_export_identically: two closed lists holding the same types build typesets whose exports, full or base_only, are the same call of pydot; theory/ExportWF.v derives the permutation and NoDup premises from C14's well-formedness theorem) and, for arbitrary graphs, under permutation premises (C19_export_independent_of_supply_order: theory/SortTheory.v proves that the stable insertion sort used by the generated code is a function of the multiset when keys are injective; type names are distinct by computation on the regenerated table; C14_supply_order_is_irrelevant gives the permutation premises) under the assumption that pydot/graphviz is a deterministic function of the ordered node and edge lists it is handed - that function is not modelled, it is exercised by the byte comparison on the implementation.",
         technique="Coq proof (generated export = sorted copy; sorted copy is permutation-invariant) + parse-back oracle and byte comparison across supply orders",
     ),
@@ -109,7 +109,7 @@ CHECKS = {
               "nullable flag, StandardSet, StandardSet+Date and CompleteSet type a column by the documented map (nearest included ancestor otherwise), from the schema alone - rows are "
               "not an input of the model; the frame handed back is the input frame. The pyspark class hierarchy is measured from the installed library. A local Spark session compares the "
               "model with the implementation for every constructor x typeset and checks rows/nullability/position/name independence and the job counter."),
-        ref="DESIGN.md section 6 (C17)",
+        ref="DESIGN.md section 3 (C17)",
         note=TB_COMMON + "Measured (not verified): isinstance table of pyspark DataType classes. Hand model: relations/dispatch for Spark frames (props/C17.v spark_relations). Partial: 'no Spark job' is only observable dynamically (status tracker). Known finding F17b (dotted column names).",
         technique="Coq proof by case analysis over a Spark type language on generated contains_ops + engine; Spark-session differential test and property oracle",
     ),
@@ -134,7 +134,7 @@ CHECKS = {
               "equality of the stored relations). Exclusivity of "
               "the shipped relations is decided on the implementation: every successor's is_relation is evaluated at every node of every admissible branch for all shared streams plus "
               "cross-parser string columns, and CompleteSet is rebuilt under permuted supply orders. Five inherent overlaps at String are recorded as known findings with narrow classifiers."),
-        ref="DESIGN.md section 6 (C02)",
+        ref="DESIGN.md section 3 (C02)",
         note=TB_COMMON + "Exclusivity of sibling predicates over ALL sequences is not a Coq theorem here (string parsers are oracles; the identity layer is modelled under C16); it is established by evaluation of the real guards. Known findings F02a-e, F02o.",
         technique="Coq proof (order independence of exclusive walks under successor permutation, derived for the generated constructor's graphs) + exhaustive-per-node guard evaluation and permuted-order rebuilds on the implementation",
     ),
@@ -144,7 +144,7 @@ CHECKS = {
               "with flags, any length - child membership implies parent membership; the side conditions are exactly the recorded findings, each refuted with a computed witness "
               "(categorical series of dates in Date not Object; existing relative path in File not Path). The model is validated against `series in T` for all 24 types on thousands "
               "of abstracted series per run incl. every dtype x up to two value kinds; the numpy backend is judged by the oracle only."),
-        ref="DESIGN.md section 6 (C16)",
+        ref="DESIGN.md section 3 (C16)",
         note=TB_COMMON + "Measured, not verified: per-kind isinstance/class-name/hasattr facts, astype(str) round trip, 'unsigned implies integer' for dtype facts. Abstraction in lib/Values.v (no adversarial objects). Known findings F16b, F16c; F16a repaired.",
         technique="Coq proof per identity edge over an abstract series universe on predicates translated from source; extracted-model differential test over a bounded-exhaustive dtype x kind grid",
     ),
@@ -153,7 +153,7 @@ CHECKS = {
               "permutation of the rows and for repetition of the sequence, for all dtypes, values and lengths; the six prefix-testing types are refuted with computed witnesses "
               "(recorded findings). Index labels and name are not part of the abstract series. detect_type / infer_type / membership invariance under all row permutations (n <= 4), "
               "relabelling, renaming and k-fold repetition is checked on the implementation for pandas, numpy and list inputs."),
-        ref="DESIGN.md section 6 (C11)",
+        ref="DESIGN.md section 3 (C11)",
         note=TB_COMMON + "Transfer to detect_type/infer_type is not proved (whole-column parsers such as pd.to_datetime are oracles); it is checked dynamically. Known findings F11a, F11b, F11np, F11list.",
         technique="Coq proof (permutation / repetition invariance of translated predicates via Permutation lemmas) + exhaustive small-permutation oracle on the implementation",
     ),
@@ -162,7 +162,7 @@ CHECKS = {
               "contains the input, the cast data is contained in the last type of the returned path; the cast data is exactly the guarded composition of the path's transformers. The "
               "per-relation obligation (each shipped coercion lands inside its target, detect(cast) = infer_type) is decided on the implementation for every relation of every shipped "
               "typeset over the shared streams on pandas, numpy and list inputs. Several genuine defects were repaired (all-NaN complex, URL/Complex/Float/Boolean casts on missing values)."),
-        ref="DESIGN.md section 6 (C03)",
+        ref="DESIGN.md section 3 (C03)",
         note=TB_COMMON + "The shipped transformers/guards themselves are not modelled in Coq (pandas astype / parsers are third-party): their 'lands in target' facts come from the oracle. Known findings for the numpy and list backends.",
         technique="Coq proof (induction over the guarded walk: lands-in-target composes) + per-relation oracle on the implementation",
     ),
@@ -170,7 +170,7 @@ CHECKS = {
         text=("Coq theorems over the reference walk: where a traversal stopped every later traversal arriving with the same data stops too (guards ignore the state), and a traversal that only "
               "takes identity-transformer relations returns its input; with C03 this gives infer(cast x) = infer x and cast(cast x) = cast x. The remaining per-relation facts are decided on the "
               "implementation: re-inference and re-cast of the cast data for all streams, typesets and backends."),
-        ref="DESIGN.md section 6 (C04)",
+        ref="DESIGN.md section 3 (C04)",
         note=TB_COMMON + "That shipped guards are false on already-coerced data (L4) is an oracle fact, not a Coq theorem.",
         technique="Coq proof (stability of the stop condition; identity paths return their input) + re-inference oracle",
     ),
@@ -179,7 +179,7 @@ CHECKS = {
               "inference edge - returns the very data it was given (for contains-guarded graphs detect's data component is the input and the state is untouched). Non-mutation: model values are "
               "immutable, the translator rejects stores into arguments; on the implementation deep snapshots (values, dtype, index, name, element identities) are compared around every public "
               "call and around every relation, accepted or rejected, for pandas, numpy, list and DataFrame inputs, and object identity of no-op casts is checked with `is`."),
-        ref="DESIGN.md section 6 (C05)",
+        ref="DESIGN.md section 3 (C05)",
         note=TB_COMMON + "Object identity and in-place mutation inside third-party libraries are runtime behaviour the model cannot exhibit: partial, covered by the dynamic snapshots.",
         technique="Coq proof (no-op traversals return their input) + translator effect discipline + snapshot/identity oracle",
     ),
@@ -188,7 +188,7 @@ CHECKS = {
               "data as it was at that point; DataFrames are per-column (C08). Shape/index/name/null-position preservation and element-wise exact decoding of each shipped relation, and that "
               "guards test the exact round trip, are checked on the implementation position by position against independent decoders for every pandas stream input (two genuine defects repaired: "
               "Geometry cast dropped index/name, URL cast mangled missing values)."),
-        ref="DESIGN.md section 6 (C06)",
+        ref="DESIGN.md section 3 (C06)",
         note=TB_COMMON + "Element-level decoding facts of astype/parsers are oracle facts. numpy/list inputs are covered through C03/C04 oracles only.",
         technique="Coq proof (cast = guarded composition of the path) + position-wise decoder oracle",
     ),
@@ -196,7 +196,7 @@ CHECKS = {
         text=("Coq proofs over the regenerated pandas predicates: an empty column belongs to no shipped type but Generic; any dtype for which the pandas family predicate answers True (any width, "
               "numpy or nullable, any placement of missing values) is recognised as Integer / Float / Boolean / DateTime. String- and object-encoded families pass through parser relations and are "
               "decided on the implementation over the family x encoding x sentinel x position x length x index grid."),
-        ref="DESIGN.md section 6 (C07)",
+        ref="DESIGN.md section 3 (C07)",
         note=TB_COMMON + "Known findings F07a (object-dtype numbers stay Object), F07b (string-encoded Path/UUID/IP/Email/Geometry with missing values stay String).",
         technique="Coq proof (emptiness and dtype-family lemmas on translated predicates) + encoding-grid oracle",
     ),
@@ -204,7 +204,7 @@ CHECKS = {
         text=("Coq proof over the regenerated pandas membership predicates: for every abstract series they return a boolean and never raise; Generic contains everything. Totality of detect / "
               "infer / cast through the inference relations (third-party parsers) is decided on the implementation over all streams incl. adversarial strings and every dtype x value-kind "
               "combination, on pandas, numpy and list inputs; five genuine crashes were repaired."),
-        ref="DESIGN.md section 6 (C09)",
+        ref="DESIGN.md section 3 (C09)",
         note=TB_COMMON + "Exceptions raised inside pandas/shapely/urllib for reasons outside the model are only reachable dynamically. Known findings F09c, F09list, F09np.",
         technique="Coq proof (totality of translated predicates by case analysis) + crash oracle over adversarial streams",
     ),
@@ -214,7 +214,7 @@ CHECKS = {
               "holds afterwards what it held on entry (the pre-repair pattern - restoring sys.__stderr__ instead of the saved stream - is rejected by the same semantics). Independence from "
               "enumeration order is C02's theorem. History, other typesets, fresh processes and hash seeds are decided on the implementation: random API histories with a global snapshot "
               "after every call under a redirected stderr, probes before/after, subprocesses with different PYTHONHASHSEED."),
-        ref="DESIGN.md section 6 (C10)",
+        ref="DESIGN.md section 3 (C10)",
         note=TB_COMMON + "Partial: effects inside third-party libraries, address/hash-seed dependence and dispatch registries are runtime behaviour only observable dynamically. The effect extractor is syntactic (a global write through an alias or setattr is outside it). Known finding F10b.",
         technique="Coq computation over extracted effect programs (all raise/no-raise oracles) + history/global-snapshot/subprocess oracle",
     ),
